@@ -40,9 +40,11 @@ fn main() {
         "C09" => vh::router::props::c09(&mut ctx),
         "C10" => vh::router::props::c10(&mut ctx),
         "C03" => vh::net::c03::run(&mut ctx),
+        "C04" => vh::net::c04::run(&mut ctx),
         "C05" => vh::pure::c05::run(&mut ctx),
         "C06" => vh::pure::c06::run(&mut ctx),
         "C07" => vh::pure::c07::run_grammar(&mut ctx),
+        "C12" => vh::net::c12::run(&mut ctx),
         "C13" => vh::pure::c13::run(&mut ctx),
         "C14" => vh::pure::c14::run(&mut ctx),
         "C16" => vh::router::props::c16(&mut ctx),
@@ -55,10 +57,12 @@ fn replay(id: &'static str, leg: &str, case: &serde_json::Value) -> i32 {
     if leg.starts_with("ps-") { return vh::router::props::replay_ps(id, case); }
     if leg.ends_with("-direct") { return vh::router::props::replay_d(id, case); }
     if id == "C03" { return vh::net::c03::replay(id, case); }
+    if id == "C04" { return vh::net::c04::replay(id, case); }
     if id == "C05" { return vh::pure::c05::replay(id, leg, case); }
     if id == "C07" && leg == "grammar" { return vh::pure::c07::replay(id, case); }
     if id == "C14" { return vh::pure::c14::replay(id, case); }
     if id == "C06" { return vh::pure::c06::replay(id, case); }
+    if id == "C12" { return vh::net::c12::replay(id, case); }
     if id == "C13" { return vh::pure::c13::replay(id, case); }
     if leg.starts_with("rr-") { return vh::router::props::replay_rr(id, leg, case); }
     eprintln!("no replay handler for leg {leg}");
